@@ -2,7 +2,7 @@
   C02 helper lemmas, part 3: how one piece of processing for connection `c` may change the routing
   tables (`RouteStep`), and the specification of set/call (`setOrCall`).
 -/
-import Cjet.Lemmas.DaemonC02Handlers
+import Cjet.Lemmas.DaemonC02Pending
 
 namespace Cjet.Daemon.C02
 
@@ -102,6 +102,19 @@ structure MethodSpec (c : Nat) (req : Json) (x : Ctx) (res : Ctx × Option Json)
     (res.2 = none → Answerable req → ∃ o ∈ new, obsAccepted o = true)
   resp : RespFor req res.2
   routes : RouteStep c x.st.peers res.1.st.peers
+  pend : (conns x.st.peers).Nodup →
+    pendingA res.1.st.peers + (if res.2.isSome = true then 1 else 0) ≤ pendingA x.st.peers + ansN req
+
+theorem FromReq.pend {req : Json} {r : Option Json} (h : FromReq req r) :
+    (if r.isSome = true then 1 else 0) ≤ ansN req := by
+  split
+  · rename_i hs
+    have ha : Answerable req := by
+      rcases h.respFor with hn | ⟨id, j, hid, hok, _, _⟩
+      · rw [hn] at hs; cases hs
+      · exact ⟨id, hid, hok⟩
+    simp [ansN, answerableB_iff.2 ha]
+  · exact Nat.zero_le _
 
 theorem obsNotif_not_accepted {o : Obs} (h : obsNotif o = true) : obsAccepted o = false := by
   cases o with
@@ -120,14 +133,40 @@ theorem HandlerOK.methodSpec {c : Nat} {req : Json} {x : Ctx} {res : Ctx × Opti
     (h : HandlerOK req x res) : MethodSpec c req x res := by
   obtain ⟨⟨⟨new, e, hp⟩, hr⟩, hf⟩ := h
   exact ⟨⟨new, e, fun o ho => obsNotif_obsMethod (hp o ho), fun _ o ho => obsNotif_not_accepted (hp o ho),
-    fun hn ha => (hf.none_absurd hn ha).elim⟩, hf.respFor, RouteStep.of_routesMap hr⟩
+    fun hn ha => (hf.none_absurd hn ha).elim⟩, hf.respFor, RouteStep.of_routesMap hr,
+    fun _ => by rw [pendingA_of_routesMap hr]; exact Nat.add_le_add_left hf.pend _⟩
 
 /-- a leaf of `setOrCall` that answers the request itself -/
 theorem MethodSpec.leaf {c : Nat} {req : Json} {x x' : Ctx} {r : Option Json} (new : List Obs)
     (hout : x'.out = new ++ x.out) (hm : ∀ o ∈ new, obsMethod o = true)
     (hna : ∀ o ∈ new, obsAccepted o = false) (hr : FromReq req r)
-    (hrt : RouteStep c x.st.peers x'.st.peers) : MethodSpec c req x (x', r) :=
-  ⟨⟨new, hout, hm, fun _ => hna, fun hn ha => (hr.none_absurd hn ha).elim⟩, hr.respFor, hrt⟩
+    (hrt : RouteStep c x.st.peers x'.st.peers) (hpd : pendingA x'.st.peers ≤ pendingA x.st.peers) :
+    MethodSpec c req x (x', r) :=
+  ⟨⟨new, hout, hm, fun _ => hna, fun hn ha => (hr.none_absurd hn ha).elim⟩, hr.respFor, hrt,
+    fun _ => Nat.add_le_add hpd hr.pend⟩
+
+theorem pendingA_append_remove (ps : List Peer) (o : Nat) (r : Route) :
+    pendingA (removeRoute (updatePeer ps o (fun q => { q with routes := q.routes ++ [r] })) o r.rid) ≤ pendingA ps := by
+  induction ps with
+  | nil => exact Nat.le_refl _
+  | cons p t ih =>
+    simp only [removeRoute, updatePeer, List.map_cons, pendingA, List.sum_cons, List.map_map] at ih ⊢
+    apply Nat.add_le_add _ ih
+    by_cases h : (p.conn == o) = true
+    · simp only [h, if_true]
+      simp only [List.filter_append, List.filter_cons, bne_self_eq_false, Bool.false_eq_true, if_false,
+        List.filter_nil, List.append_nil]
+      exact countP_filter_le _ _ _
+    · simp only [h, Bool.false_eq_true, if_false]
+      exact Nat.le_refl _
+
+theorem pendingA_append (ps : List Peer) (o : Nat) (r : Route) (n : Nat) (hn : (conns ps).Nodup)
+    (hr : (if routeAnswerable r = true then 1 else 0) ≤ n) :
+    pendingA (updatePeer ps o (fun q => { q with routes := q.routes ++ [r] })) ≤ pendingA ps + n := by
+  apply pendingA_updatePeer_add ps o _ n hn
+  intro q
+  simp only [List.countP_append, List.countP_singleton]
+  omega
 
 theorem obsMethod_routed (d : Nat) (rid path : Bytes) (isState : Bool) (value : Option Json) (b : Bool) :
     obsMethod (.send d (routedMessage rid path isState value) b) = true :=
@@ -158,17 +197,20 @@ theorem setOrCall_spec (cfg : Config) (x : Ctx) (p : Peer) (req : Json) (isState
   repeat' (first | exact (HandlerOK.methodSpec (by hok)) | split | dsimp only)
   all_goals first
     | exact HandlerOK.methodSpec ⟨Frame.refl _, getParamsAndPath_err (by assumption)⟩
-    | exact MethodSpec.leaf [] rfl (by simp) (by simp) (FromReq.error ..) (RouteStep.refl ..)
+    | exact MethodSpec.leaf [] rfl (by simp) (by simp) (FromReq.error ..) (RouteStep.refl ..) (Nat.le_refl _)
     | exact MethodSpec.leaf [.timerDestroy _] rfl (by simp [obsMethod]) (by simp [obsAccepted])
-        (FromReq.error ..) (RouteStep.refl ..)
+        (FromReq.error ..) (RouteStep.refl ..) (Nat.le_refl _)
     | (refine MethodSpec.leaf [.timerDestroy _, .send _ _ _, .timerArm _ _] rfl ?_ ?_ (FromReq.error ..)
         ((routeStep_append _ _ _ (by rfl) (by rfl)).trans (routeStep_removeRoute ..))
+        (pendingA_append_remove _ _ ⟨_, _, _, _, _⟩)
        · simp [obsMethod]; exact isRoutedReq_hasMethod (routedMessage_isRoutedReq ..)
        · simp_all [obsAccepted])
-    | (refine ⟨⟨[.send _ _ _, .timerArm _ _], rfl, ?_, by simp, ?_⟩, Or.inl rfl, routeStep_append _ _ _ (by rfl) (by rfl)⟩
+    | (refine ⟨⟨[.send _ _ _, .timerArm _ _], rfl, ?_, by simp, ?_⟩, Or.inl rfl,
+        routeStep_append _ _ _ (by rfl) (by rfl), fun hn => ?_⟩
        · simp [obsMethod]; exact isRoutedReq_hasMethod (routedMessage_isRoutedReq ..)
        · intro _ _
          refine ⟨_, List.mem_cons_self .., ?_⟩
-         simp_all [obsAccepted, routedMessage_isRoutedReq])
+         simp_all [obsAccepted, routedMessage_isRoutedReq]
+       · exact pendingA_append _ _ _ _ hn (by simp_all [routeAnswerable, ansN, answerableB]))
 
 end Cjet.Daemon.C02
